@@ -102,6 +102,25 @@ def replay_modify(fl, FA, vals=None, limit=4000, exclude_known=False, **kw):
                     if not ok:
                         return {"failed": True, "expected": exp[ov.name], "observed": got, "cases": n,
                                 "call": f"Consequent('{text}').modify({d}, Minimum()) with enabled={dict(zip('opq', enabled))}: fuzzy output of '{ov.name}'"}
+            # the same consequent modified twice without clearing the fuzzy outputs in between (two triggers in one step, or a caller that keeps the first
+            # contributions): each call adds its OWN activated terms - the earlier ones keep their degree and implication
+            for ov in e.output_variables:
+                ov.fuzzy.clear()
+            i1, i2 = fl.Minimum(), fl.AlgebraicProduct()
+            try:
+                c.modify(np.float64(0.25), i1); first = [(ov.name, [(a.term.name, float(a.degree), a.implication) for a in ov.fuzzy.terms]) for ov in e.output_variables]
+                c.modify(np.float64(0.75), i2)
+            except Exception as ex:  # noqa
+                return {"failed": True, "expected": "no exception for a loaded consequent", "observed": f"{type(ex).__name__}: {ex}", "call": f"Consequent('{text}').modify twice"}
+            n += 1
+            e1, e2 = expected_contributions(fl, concl, 0.25, enabled), expected_contributions(fl, concl, 0.75, enabled)
+            for ov in e.output_variables:
+                got = [(a.term.name, float(a.degree), type(a.implication).__name__) for a in ov.fuzzy.terms]
+                want = [(t, x, "Minimum") for t, x in e1[ov.name]] + [(t, x, "AlgebraicProduct") for t, x in e2[ov.name]]
+                ok = len(got) == len(want) and all(g[0] == w[0] and FA.same(g[1], w[1]) and g[2] == w[2] for g, w in zip(got, want)) and len({id(a) for a in ov.fuzzy.terms}) == len(ov.fuzzy.terms)
+                if not ok and not known_c07_1(concl, enabled):
+                    return {"failed": True, "expected": want, "observed": got, "cases": n,
+                            "call": f"Consequent('{text}').modify(0.25, Minimum()) then .modify(0.75, AlgebraicProduct()) without clearing, enabled={dict(zip('opq', enabled))}: fuzzy output of '{ov.name}'"}
     return {"failed": False, "cases": n}
 
 
@@ -219,6 +238,20 @@ def replay_activation(fl, FA, method="General", vals=None, seed=0, budget=400, *
         out = fl.OutputVariable(name="y", minimum=0.0, maximum=10.0, aggregation=None, defuzzifier=fl.WeightedAverage(),
                                 terms=[fl.Constant(f"c{i}", float(i + 1)) for i in range(n)])
         act = getattr(fl, method)(**params)
+        if cases % 3 == 2 and params:
+            # an activation object that was constructed (or configured) with other parameters first and then given these by attribute assignment / configure():
+            # the parameters in force are the current ones
+            other = {"rules": 7, "threshold": 0.875, "comparator": "!="}
+            act = getattr(fl, method)(**{k: other[k] for k in params})
+            if cases % 2 == 0:
+                for k_, v_ in params.items():
+                    setattr(act, k_, fl.Threshold.Comparator(v_) if k_ == "comparator" else v_)
+            else:
+                fresh_ = getattr(fl, method)(**params)
+                act.configure(fresh_.parameters())
+                for k_, v_ in params.items():
+                    if k_ != "comparator":
+                        setattr(act, k_, v_)          # (configure() parses the printed text: the exact value is assigned afterwards)
         # every second case: each rule first concludes a DISABLED output variable `d` (which receives nothing) and then `y` - "exactly the selected rules
         # contribute" includes that a selected rule's contribution to `y` is not lost on the way
         two = cases % 2 == 1
@@ -585,7 +618,7 @@ def _sem_obj(fl, node, conj, disj, state):
     return np.float64((conj if node.name == "and" else disj).compute(a, b))
 
 
-def reference_process(fl, e, held):
+def reference_process(fl, e, held, snap=None):
     """the documented pipeline, wired independently of Engine.process / RuleBlock.activate / Rule.* / Consequent.modify /
     OutputVariable.defuzzify; leaves (membership, compute, hedge, defuzzify of an Aggregated built here) are the library's own"""
     import numpy as np
@@ -610,7 +643,8 @@ def reference_process(fl, e, held):
                         dd = np.float64(h.hedge(dd))
                     state[c.variable.name].append((c.term, _clean(dd), block.implication))
 
-        loaded = [r for r in block.rules if r.is_loaded()]
+        order = snap["rules"][id(block)] if snap else list(block.rules)          # the rules in the order the block was built with
+        loaded = [r for r in order if r.is_loaded()]
         if kind in ("General", "First", "Last", "Threshold"):
             # one pass: every rule is evaluated on the outputs accumulated SO FAR (a selected rule contributes before the next rule is evaluated)
             count = 0
@@ -648,7 +682,11 @@ def reference_process(fl, e, held):
             out[ov.name] = held[ov.name]
             continue
         agg = fl.Aggregated(ov.name, ov.minimum, ov.maximum, ov.aggregation, [fl.Activated(t, d, i) for (t, d, i) in state[ov.name]])
-        dv = float(np.float64(ov.defuzzifier.defuzzify(agg, ov.minimum, ov.maximum)))
+        dz = ov.defuzzifier
+        if snap:            # a FRESH defuzzifier configured as the engine's was when it was built (nothing an earlier step may have left in the object)
+            cls_, par_ = snap["defuzzifiers"][ov.name]
+            dz = cls_(); dz.configure(par_)
+        dv = float(np.float64(dz.defuzzify(agg, ov.minimum, ov.maximum)))
         out[ov.name] = _step(held[ov.name], dv, ov.lock_previous, ov.default_value, ov.lock_range, ov.minimum, ov.maximum)
     return out, state
 
@@ -669,10 +707,13 @@ def _gen_engine(fl, rng):
                                    terms=[fl.Triangle("lo", 0.0, 0.25, 0.5), fl.Triangle("hi", 0.5, 0.75, 1.0)])
         else:
             ov = fl.OutputVariable(name="YZ"[i], minimum=-10.0, maximum=10.0, aggregation=rng.choice([None, fl.UnboundedSum(), fl.Maximum()]),
-                                   defuzzifier=rng.choice([fl.WeightedAverage(), fl.WeightedSum()]), terms=[fl.Constant("lo", -2.0), fl.Constant("hi", 3.0)])
+                                   defuzzifier=rng.choice([fl.WeightedAverage(), fl.WeightedSum()]),
+                                   terms=[fl.Constant("lo", -2.0), fl.Constant("hi", 3.0)] if rng.random() < 0.7 else [fl.Ramp("lo", 5.0, -5.0), fl.Ramp("hi", -5.0, 5.0)])
         ov.enabled = rng.random() > 0.1
         ov.lock_previous = rng.random() < 0.3; ov.default_value = rng.choice([float("nan"), float("nan"), 0.5]); ov.lock_range = rng.random() < 0.3
         outs.append(ov)
+    if len(outs) == 2 and all(isinstance(o.defuzzifier, fl.WeightedDefuzzifier) for o in outs) and rng.random() < 0.5:
+        outs[1].defuzzifier = outs[0].defuzzifier          # one defuzzifier object serving two output variables (what Engine.configure(defuzzifier=...) installs)
     e = fl.Engine(name="g", input_variables=ins, output_variables=outs, rule_blocks=[])
     names_in = [v.name for v in ins]; names_out = [v.name for v in outs]
     hedges = ["", "", "very ", "not ", "somewhat ", "not very "]
@@ -722,15 +763,19 @@ def replay_pipeline(fl, FA, vals=None, seed=0, budget=150, exclude_known=True, *
         if exclude_known and any(known_c07_1([(c.variable.name, c.hedges, None) for c in r.consequent.conclusions], {c.variable.name: True for c in r.consequent.conclusions})
                                  if False else any(c.hedges for c in r.consequent.conclusions[:-1]) for b in e.rule_blocks for r in b.rules):
             continue       # region of known finding C07-1 (hedged conclusion followed by another one)
+        snap = {"rules": {id(b): list(b.rules) for b in e.rule_blocks}, "defuzzifiers": {ov.name: (type(ov.defuzzifier), ov.defuzzifier.parameters()) for ov in e.output_variables}}
         for step in range(3):            # several steps on the same engine: earlier steps must leave no trace except the held value
             for v in e.input_variables:
                 v.value = rng.choice(rows)
             held = {ov.name: float(np.take(np.asarray(ov.value, dtype=float), -1)) for ov in e.output_variables}
             try:
-                exp, st = reference_process(fl, e, held)
+                exp, st = reference_process(fl, e, held, snap)
             except Exception as ex:  # noqa   (e.g. TypeError of infer_type for mixed term kinds): not a case of this property
                 continue
             e.process()
+            if any([id(r) for r in b.rules] != [id(r) for r in snap["rules"][id(b)]] for b in e.rule_blocks):
+                return {"failed": True, "cases": cases, "expected": "process() leaves the order of the rules of every block as it was", "observed": "the rules of a block were reordered",
+                        "call": f"blocks {[(b.name, str(b.activation)) for b in e.rule_blocks]}, step {step}"}
             cases += 1
             seen.add((len(e.input_variables), len(e.output_variables), len(e.rule_blocks), tuple(type(b.activation).__name__ for b in e.rule_blocks), tuple(r.text for b in e.rule_blocks for r in b.rules)))
             for ov in e.output_variables:
